@@ -1,6 +1,7 @@
 """Implementation of external API for AirPlay."""
 
 import asyncio
+from functools import partial
 import logging
 import os
 from typing import Any, Dict, Generator, Mapping, Optional, Set
@@ -235,6 +236,21 @@ async def service_info(
     update_service_details(service)
 
 
+def _takeover_as(core: Core, protocol: Protocol):
+    """Return a takeover method that takes over in the name of another protocol.
+
+    The takeover method of a core is locked to the protocol the core was created for
+    (AirPlay here). A protocol that AirPlay sets up on its behalf (RAOP when the device
+    has no RAOP service of its own) must take over in its own name: otherwise the relayers
+    consult AirPlay, which does not implement the interfaces, before all others while
+    RAOP is streaming.
+    """
+    device_takeover = getattr(core.device_listener, "takeover", None)
+    if device_takeover is None:
+        return core.takeover
+    return partial(device_takeover, protocol)
+
+
 def _create_mrp_tunnel_data(core: Core, credentials: HapCredentials):
     session = AP2Session(
         str(core.config.address), core.service.port, credentials, core.settings.info
@@ -369,7 +385,7 @@ def setup(  # pylint: disable=too-many-locals
             core.settings,
             core.device_listener,
             core.session_manager,
-            core.takeover,
+            _takeover_as(core, Protocol.RAOP),
             core.state_dispatcher.create_copy(Protocol.RAOP),
         )
 
